@@ -39,9 +39,15 @@ Lower == <<"a", "c", "g", "t", "r", "y", "w", "s", "m", "k", "h", "b", "v", "d",
 Upper(ch) == IF InSeq(Lower, ch) THEN AmbSyms[IndexOf(Lower, ch)] ELSE ch
 Digits == <<"0", "1", "2", "3", "4", "5", "6", "7", "8", "9">>
 
-NucCode(ch)  == IndexOf(NucSyms, ch) - 1
-ProtCode(ch) == IndexOf(ProtSyms, ch) - 1
-IsNucWord(w) == \A i \in DOMAIN w : InSeq(NucSyms, w[i])
+\* codes = 0-based places in the alphabets (explicit functions: TLC evaluates [x \in S |-> e] anew at every use)
+NucCodeFn  == TLCEval([ch \in SeqSet(NucSyms) |-> IndexOf(NucSyms, ch) - 1])
+ProtCodeFn == TLCEval([ch \in SeqSet(ProtSyms) |-> IndexOf(ProtSyms, ch) - 1])
+NucCode(ch)  == NucCodeFn[ch]
+ProtCode(ch) == ProtCodeFn[ch]
+IsNucWord(w) == \A i \in DOMAIN w : w[i] \in DOMAIN NucCodeFn
+IsProtSym(ch) == ch \in DOMAIN ProtCodeFn
+\* Bind(v, F): F(v) with v evaluated once (TLC may evaluate a LET definition again at every use)
+Bind(v, F(_)) == CHOOSE r \in {F(x) : x \in {v}} : TRUE
 
 (* ------------------------------------------------------------------ codon numbers *)
 Num(c) == 16 * c[1] + 4 * c[2] + c[3]
@@ -59,7 +65,7 @@ WordNum(w)   == Num(<<NucCode(w[1]), NucCode(w[2]), NucCode(w[3])>>)     \* w: t
 IsCodonWord(w) == Len(w) = 3 /\ IsNucWord(w)
 
 (* ------------------------------------------------------------------ tables *)
-Dom_Table(t) == /\ DOMAIN t.aa = 1..64 /\ \A k \in 1..64 : InSeq(ProtSyms, t.aa[k])
+Dom_Table(t) == /\ DOMAIN t.aa = 1..64 /\ \A k \in 1..64 : IsProtSym(t.aa[k])
                 /\ Len(t.starts) >= 1 /\ \A k \in DOMAIN t.starts : t.starts[k] \in CodonNums
 AaOf(t, n)   == t.aa[n + 1]
 StartSet(t)  == SeqSet(t.starts)
@@ -70,18 +76,18 @@ StartSet(t)  == SeqSet(t.starts)
 \* the protein alphabet ("all upper case"), at least one start codon (CodonTable(d, []) fails in numpy
 \* broadcasting today; whether a table without start codons may exist is left open).
 Dom_Ctor(pairs, starts) ==
-  /\ \A i \in DOMAIN pairs : Len(pairs[i][1]) = 3 /\ InSeq(ProtSyms, pairs[i][2])
+  /\ \A i \in DOMAIN pairs : Len(pairs[i][1]) = 3 /\ IsProtSym(pairs[i][2])
   /\ Len(starts) >= 1
 CtorRejects(pairs, starts) ==
   \/ \E i \in DOMAIN starts : Len(starts[i]) # 3                          \* documented ValueError
   \/ \E i \in DOMAIN starts : ~IsNucWord(starts[i])                       \* ambiguous letters
   \/ \E i \in DOMAIN pairs : ~IsNucWord(pairs[i][1])
-  \/ \E n \in CodonNums : \A i \in DOMAIN pairs : IsNucWord(pairs[i][1]) => WordNum(pairs[i][1]) # n   \* incomplete
-LastFor(pairs, n) == Max({i \in DOMAIN pairs : WordNum(pairs[i][1]) = n})
+  \/ {WordNum(pairs[i][1]) : i \in DOMAIN pairs} # CodonNums              \* incomplete: documented ValueError
 Construct(pairs, starts) ==
   IF CtorRejects(pairs, starts) THEN Rej
-  ELSE Ok([aa |-> [k \in 1..64 |-> pairs[LastFor(pairs, k - 1)][2]],
-           starts |-> [i \in DOMAIN starts |-> WordNum(starts[i])]])
+  ELSE Bind(TLCEval([i \in DOMAIN pairs |-> WordNum(pairs[i][1])]), LAMBDA nums :
+         Ok(TLCEval([aa |-> [k \in 1..64 |-> pairs[Max({i \in DOMAIN nums : nums[i] = k - 1})][2]],   \* the last item for the codon
+                     starts |-> [i \in DOMAIN starts |-> WordNum(starts[i])]])))
 \* implementation-shaped: an array of 64 entries filled with -1 ("?" here), one assignment per item, then
 \* the test for a remaining -1; the first missing codon (in number order) is named in the message
 CtorArrayImpl(pairs) ==
@@ -91,7 +97,7 @@ ConstructImpl(pairs, starts) ==
   ELSE IF \E i \in DOMAIN pairs : ~IsNucWord(pairs[i][1]) THEN Rej
   ELSE LET arr == CtorArrayImpl(pairs) IN
        IF \E k \in 1..64 : arr[k] = "?" THEN Rej
-       ELSE Ok([aa |-> arr, starts |-> [i \in DOMAIN starts |-> WordNum(starts[i])]])
+       ELSE Ok(TLCEval([aa |-> arr, starts |-> [i \in DOMAIN starts |-> WordNum(starts[i])]]))
 FirstMissing(pairs) == Min({n \in CodonNums : CtorArrayImpl(pairs)[n + 1] = "?"})
 
 \* with_start_codons(starts) / with_codon_mappings(dict): a new table, the old one is not touched.
@@ -99,10 +105,10 @@ FirstMissing(pairs) == Min({n \in CodonNums : CtorArrayImpl(pairs)[n + 1] = "?"}
 \* today: with_start_codons(["G"]) builds the start codon GGG, finding X01-with-starts-short).
 WithStarts(t, starts) ==
   IF \E i \in DOMAIN starts : Len(starts[i]) # 3 \/ ~IsNucWord(starts[i]) THEN Rej
-  ELSE Ok([t EXCEPT !.starts = [i \in DOMAIN starts |-> WordNum(starts[i])]])
+  ELSE Ok(TLCEval([t EXCEPT !.starts = [i \in DOMAIN starts |-> WordNum(starts[i])]]))
 WithMappings(t, pairs) ==
-  IF \E i \in DOMAIN pairs : ~IsCodonWord(pairs[i][1]) \/ ~InSeq(ProtSyms, pairs[i][2]) THEN Rej
-  ELSE Ok([t EXCEPT !.aa = FoldLeft(LAMBDA arr, p : [arr EXCEPT ![WordNum(p[1]) + 1] = p[2]], t.aa, pairs)])
+  IF \E i \in DOMAIN pairs : ~IsCodonWord(pairs[i][1]) \/ ~IsProtSym(pairs[i][2]) THEN Rej
+  ELSE Ok(TLCEval([t EXCEPT !.aa = FoldLeft(LAMBDA arr, p : [arr EXCEPT ![WordNum(p[1]) + 1] = p[2]], t.aa, pairs)]))
 
 (* ------------------------------------------------------------------ lookups *)
 \* table["ATG"]: codon word -> amino acid symbol; words of another length or with ambiguous letters are refused
@@ -183,12 +189,11 @@ KeyLineMatches(line, key) ==
 \* the five data lines of a table -> dictionary items and start codons, column by column
 FromColumns(aa, init, b1, b2, b3) ==
   IF \E L \in {init, b1, b2, b3} : Len(L) < Len(aa) THEN Rej              \* IndexError in the loop
-  ELSE LET cols == [i \in 1..Len(aa) |-> i]
-           word(i) == <<b1[i], b2[i], b3[i]>>
-           pairs == [i \in 1..Len(aa) |-> <<word(i), aa[i]>>]
-           starts == [k \in DOMAIN SelectSeq(cols, LAMBDA i : init[i] = "i") |->
-                        word(SelectSeq(cols, LAMBDA i : init[i] = "i")[k])]
-       IN IF \E i \in 1..Len(aa) : ~InSeq(ProtSyms, aa[i]) THEN Rej
+  ELSE LET word(i) == <<b1[i], b2[i], b3[i]>>
+           pairs == TLCEval([i \in 1..Len(aa) |-> <<word(i), aa[i]>>])
+           marked == SelectSeq([i \in 1..Len(aa) |-> i], LAMBDA i : init[i] = "i")
+           starts == TLCEval([k \in DOMAIN marked |-> word(marked[k])])
+       IN IF \E i \in 1..Len(aa) : ~IsProtSym(aa[i]) THEN Rej
           ELSE IF Len(starts) = 0 THEN Rej                                 \* (outside Dom_TableText)
           ELSE Construct(pairs, starts)
 
@@ -215,10 +220,10 @@ LoadImpl(text, key) ==
 
 \* declarative reading of the file: blocks of non-empty lines; a block is the table of its id and of
 \* every name on its name line; its data lines are found by their labels
-BlockSpans(text) ==
-  {<<a, b>> \in (1..Len(text)) \X (1..Len(text)) :
-     /\ a <= b /\ \A i \in a..b : Len(text[i]) > 0
-     /\ (a = 1 \/ Len(text[a - 1]) = 0) /\ (b = Len(text) \/ Len(text[b + 1]) = 0)}
+BlockSpans(text) ==                       \* <<first line, last line>> of every maximal run of non-empty lines
+  LET n == Len(text)
+      firsts == {a \in 1..n : Len(text[a]) > 0 /\ (a = 1 \/ Len(text[a - 1]) = 0)}
+  IN {<<a, Min({b \in a..n : b = n \/ Len(text[b + 1]) = 0})>> : a \in firsts}
 BlockLines(text, sp) == SubSeq(text, sp[1], sp[2])
 LinesWith(block, label) == SelectSeq(block, LAMBDA line : StartsWith(line, label))
 BlockIds(block)   == {ParseInt(DropN(line, 2)) : line \in SeqSet(LinesWith(block, S_id))}
@@ -252,7 +257,7 @@ Dom_Block(block) ==
      /\ LET aa == DataOf(block, S_AA)  init == DataOf(block, S_Init)
             b == [k \in 1..3 |-> DataOf(block, S_Base(k))] IN
         /\ Len(aa) = 64 /\ Len(init) = 64 /\ \A k \in 1..3 : Len(b[k]) = 64 /\ IsNucWord(b[k])
-        /\ \A i \in 1..64 : InSeq(ProtSyms, aa[i]) /\ init[i] \in {"-", "i"}
+        /\ \A i \in 1..64 : IsProtSym(aa[i]) /\ init[i] \in {"-", "i"}
         /\ \E i \in 1..64 : init[i] = "i"
         /\ Cardinality({WordNum(<<b[1][i], b[2][i], b[3][i]>>) : i \in 1..64}) = 64
 Dom_TableText(text) ==
